@@ -223,7 +223,11 @@ func init() {
 					mm.Note = note
 					return mm
 				}
-				if mm := Diff(i, got, msg); mm != nil {
+				want := msg // rt_zeroc2: the mask read off the library's own ciphertext
+				if op == "roundtrip" {
+					want = st.Hex("exp") // = msg, as the specification states it
+				}
+				if mm := Diff(i, got, want); mm != nil {
 					mm.Note = note
 					return mm
 				}
